@@ -168,9 +168,13 @@ impl RxMode {
             LorawanRxMode::Single { ms } => {
                 // Since both sx126x and sx127x have a preamble-based timeout, we translate
                 // the additional millisecond delay into symbols and add it to the amount of preamble symbols.
-                const PREAMBLE_SYMBOLS: u16 = 13; // 12.25
-                let num_symbols = PREAMBLE_SYMBOLS + bb.delay_in_symbols(ms);
-                RxMode::Single(num_symbols)
+                // The sum is taken in quarter symbols and rounded up, so that the window always covers
+                // the 12.25 preamble symbols plus the whole requested delay (adding the truncated delay to
+                // 13 could fall short of that by up to a quarter of a symbol).
+                const PREAMBLE_QUARTER_SYMBOLS: u32 = 49; // 12.25
+                let delay_quarter_symbols = bb.delay_in_symbols(ms.saturating_mul(4)) as u32 + 1;
+                let num_symbols = (PREAMBLE_QUARTER_SYMBOLS + delay_quarter_symbols).div_ceil(4);
+                RxMode::Single(num_symbols as u16)
             }
         }
     }
